@@ -124,7 +124,9 @@ type harness struct {
 }
 
 // Sound window for the running total T of a collection that happened inside [call, ret]:
-//   posDone(call) - negStarted(ret)  <=  T  <=  posStarted(ret) - negDone(call)
+//
+//	posDone(call) - negStarted(ret)  <=  T  <=  posStarted(ret) - negDone(call)
+//
 // sampleCall is taken before the call, sampleRet after the return.
 type sample struct{ pos, neg map[key]int64 }
 
